@@ -568,6 +568,49 @@ pub fn scenario_events_aspect(keys: [u8; 3], states: [u8; 3], modes: u8, n: u8, 
     ok
 }
 
+/// the event scenarios with one of the crate's own layouts (through the wrapper, by value) instead of the recording layout:
+/// a decoder may consult the layout for more than `map_keycode` (a new trait method that only some layouts override)
+#[cfg(not(kani))]
+pub fn scenario_events_real(keys: [u8; 3], states: [u8; 3], modes: u8, layout: u8, aspect: u8, verbose: bool) -> bool {
+    let mut kb = Keyboard::new(ScancodeSet2::new(), x_anylayout(layout), HandleControl::Ignore);
+    let spec_layout = x_anylayout(layout);
+    let mut m = x_initial_mods();
+    let mut cur = HandleControl::Ignore;
+    let mut ok = true;
+    for i in 0..3usize {
+        let h = x_mode((modes >> i) & 1 != 0);
+        if h != cur {
+            kb.set_ctrl_handling(h);
+            cur = h;
+            say!(verbose, "step {}: set_ctrl_handling({:?})", i, h);
+        }
+        let k = x_keycode(keys[i]);
+        let s = x_state(states[i]);
+        let r = kb.process_keyevent(KeyEvent::new(k, s));
+        let e = if s != KeyState::Down {
+            None
+        } else if k == KeyCode::NumpadLock && m.rctrl2 {
+            Some(DecodedKey::RawKey(KeyCode::PauseBreak))
+        } else if x_is_modifier_key(k) {
+            Some(DecodedKey::RawKey(k))
+        } else {
+            Some(spec_layout.map_keycode(k, &m, h))
+        };
+        let m2 = x_mods_step(&m, k, s);
+        let got = kb.get_modifiers().clone();
+        say!(verbose, "step {}: layout variant #{}, mode {:?}, event {:?}/{:?} -> {:?}   expected {:?}{}", i, layout, h, k, s, r, e, if r == e { "" } else { "   <-- MISMATCH" });
+        say!(verbose, "         modifiers now {:?}\n         expected      {:?}{}", got, m2, if got == m2 { "" } else { "   <-- MISMATCH" });
+        if aspect & 2 != 0 && r != e {
+            ok = false;
+        }
+        if aspect & 1 != 0 && got != m2 {
+            ok = false;
+        }
+        m = m2;
+    }
+    ok
+}
+
 // ---------------------------------------------------------------- C17 (switching)
 /// Two real decoders over the runtime-selectable wrapper see the same three key events: A starts with variant `from` and is
 /// switched to variant `to` before event `switch_at`, B held `to` from the start. From the switch on they must agree:
@@ -607,7 +650,8 @@ fn scenario_switching_ref(keys: [u8; 3], states: [u8; 3], switch_at: u8, from: u
     let lf = x_anylayout(from);
     let lt = x_anylayout(to);
     let mut a = EventDecoder::new(&lf, h);
-    let mut b = EventDecoder::new(&lt, h);
+    // B holds the target variant *by value*: the two wrapper forms must be interchangeable as well
+    let mut b = EventDecoder::new(x_anylayout(to), h);
     let mut ok = true;
     for i in 0..3usize {
         if i as u8 == switch_at {
@@ -619,7 +663,7 @@ fn scenario_switching_ref(keys: [u8; 3], states: [u8; 3], switch_at: u8, from: u
         let ra = a.process_keyevent(KeyEvent::new(k, st));
         let rb = b.process_keyevent(KeyEvent::new(k, st));
         let must = i as u8 >= switch_at;
-        say!(verbose, "step {}: event {:?}/{:?}: A (&variant #{} -> #{}) -> {:?}   B (&variant #{} all along) -> {:?}{}", i, k, st, from, to, ra, to, rb,
+        say!(verbose, "step {}: event {:?}/{:?}: A (&variant #{} -> #{}) -> {:?}   B (variant #{} by value, all along) -> {:?}{}", i, k, st, from, to, ra, to, rb,
             if must && ra != rb { "   <-- MISMATCH" } else { "" });
         if must && ra != rb {
             ok = false;
